@@ -8,7 +8,8 @@ Core Lean only (links into the peers driver).
   new buckets as (bucket, address) pairs; `triedB` = the tried lists as (bucket, address) in list
   order; `nNew`, `nTried` the two counters (`int`, decremented without a floor).
 * which bucket an address hashes to (`getNewBucket` / `getTriedBucket`, keyed by a random secret)
-  and the dice of `updateAddress` for an already known address are arguments of the operations.
+  and the dice of `updateAddress` for an already known address are arguments of the operations
+  (for ALL their values the theorems hold).
 * bucket overflow (`expireNew`, eviction from a full tried bucket: > 64 / 256 entries per bucket)
   is not modelled; `Attempt` / `Connected` / the selection `chance()` do not touch the bookkeeping.
 * `GetAddress`: `nil` when `numAddresses() == 0`; otherwise one of the two `for {}` searches over
@@ -53,9 +54,9 @@ def insertNew (s : St) (b a : Nat) : St :=
     | some ka => { s with index := setKA s.index a { ka with refs := ka.refs + 1 }, newB := s.newB ++ [(b, a)] }
     | none => s
 
-/-- `updateAddress` for a routable address; `choice = some b`: it goes to new bucket `b`
-(`none` for a known address: the dice said no). -/
-def add (c : Cfg) (s : St) (a : Nat) (choice : Option Nat) : St :=
+/-- `updateAddress` for a routable address. `b` = `getNewBucket(netAddr, srcAddr)` (always computed);
+`dice` = the outcome of `a.rand.Int31n(2*refs) == 0`, consulted for an already known address only. -/
+def add (c : Cfg) (s : St) (a b : Nat) (dice : Bool) : St :=
   if banActive s a then s
   else
     let s0 : St := { s with banned := s.banned.filter (fun e => e.1 != a) }
@@ -63,14 +64,10 @@ def add (c : Cfg) (s : St) (a : Nat) (choice : Option Nat) : St :=
     | some ka =>
       if ka.tried then s0
       else if ka.refs = c.maxRefs then s0
-      else match choice with
-        | none => s0
-        | some b => insertNew s0 b a
+      else if dice then insertNew s0 b a
+      else s0
     | none =>
-      let s1 : St := { s0 with index := s0.index ++ [(a, { refs := 0, tried := false })], nNew := s0.nNew + 1 }
-      match choice with
-      | some b => insertNew s1 b a
-      | none => s1
+      insertNew { s0 with index := s0.index ++ [(a, { refs := 0, tried := false })], nNew := s0.nNew + 1 } b a
 
 /-- `Good`: out of every new bucket (`refs--` each), `nNew--`, into tried bucket `t`, `nTried++`. -/
 def good (s : St) (a t : Nat) : St :=
@@ -129,14 +126,14 @@ def getAddress (s : St) (coin : Bool) : Got :=
 def banFixed : Bool := true
 
 inductive Op where
-  | add (a : Nat) (choice : Option Nat)
+  | add (a b : Nat) (dice : Bool)
   | good (a t : Nat)
   | ban (a : Nat)
   | clock (dt : Nat)
   deriving Repr
 
 def step (c : Cfg) (s : St) : Op → St
-  | .add a ch => add c s a ch
+  | .add a b d => add c s a b d
   | .good a t => good s a t
   | .ban a => ban banFixed c s a
   | .clock dt => { s with now := s.now + dt }
